@@ -112,6 +112,79 @@ def parse_frames(text):
     return [dict(id=int(a), hw=int(b), sz=int(c), w=int(d), h=int(e), t=int(f), px=g) for a, b, c, d, e, f, g in FRAME_RE.findall(text)]
 
 
+# ----------------------------------------------------------------------------- frame averaging, recomputed (C10 at pipeline level)
+import struct as _struct
+
+
+def _f32(x):
+    return _struct.unpack("<f", _struct.pack("<f", x))[0]
+
+
+def mock_pixel(cam, tag, hw, j):
+    return (17 * cam + 31 * tag + 7 * hw + 13 * j + 1) & 0xFF
+
+
+def mean_frame_hash(cam, tag, hws, w, h, t):
+    """FNV-1a hash of the f32 frame the filter must emit for the window of camera frames `hws` (hardware ids) of sample type t:
+    every pixel = float32(sum of the integer input pixels) * float32(1/k).  The sum is exact in binary32 (k*maxval < 2^24) and the
+    product of two binary32 numbers is exact in binary64, so one rounding to binary32 reproduces the C arithmetic bit for bit."""
+    k = len(hws)
+    inv = _f32(1.0 / k)
+    npx = w * h
+    wide = BPP.get(t, 1) == 2
+    signed = t in (2, 3)
+    hsh = 2166136261
+    for i in range(npx):
+        s = 0
+        for hw in hws:
+            if wide:
+                v = mock_pixel(cam, tag, hw, 2 * i) | (mock_pixel(cam, tag, hw, 2 * i + 1) << 8)
+                if signed and v >= 0x8000:
+                    v -= 0x10000
+            else:
+                v = mock_pixel(cam, tag, hw, i)
+                if signed and v >= 0x80:
+                    v -= 0x100
+            s += v
+        out = _f32(float(s) * inv)
+        for b in _struct.pack("<f", out):
+            hsh = ((hsh ^ b) * 16777619) & 0xFFFFFFFF
+    return "%08x" % hsh
+
+
+def averaging_verdicts(add, s, ai, a, frames, where):
+    """C10 over what `where` (storage / the monitor) received in an acquisition with frame averaging k that was started, ran to
+    completion without fault or abort and was stopped: one f32 frame per complete window of k consecutive camera frames, in order,
+    frame id = id of the window's first frame, pixels = the binary32 mean; at most one extra frame for a trailing incomplete window."""
+    k = a.cfg["avg"]
+    n = len(a.cam_ok)
+    cam = a.cam
+    full = n // k
+    if where == "storage":
+        if not (full <= len(frames) <= full + (1 if n % k else 0)):
+            add("C10", "window-count", "stream %d acquisition %d: %d camera frames with averaging %d: %s received %d frames, expected %d complete windows%s"
+                % (s, ai, n, k, where, len(frames), full, " (+ at most one for the trailing %d frames)" % (n % k) if n % k else ""))
+            return
+    for i, f in enumerate(frames[:full]):
+        base = f["id"] // k if where != "storage" else i
+        if where == "storage" and f["id"] != i * k:
+            add("C10", "window-id", "stream %d acquisition %d: averaged frame %d reached %s with frame id %d, the id of its window's first frame is %d" % (s, ai, i, where, f["id"], i * k))
+            continue
+        if f["id"] % k or f["id"] // k >= full:
+            continue      # the monitor may be looking at the trailing partial window
+        wi = f["id"] // k
+        if f["t"] != 4 or (f["w"], f["h"]) != (cam["w"], cam["h"]):
+            add("C10", "window-shape", "stream %d acquisition %d: averaged frame %d reached %s as type %d %dx%d, expected f32 %dx%d" % (s, ai, wi, where, f["t"], f["w"], f["h"], cam["w"], cam["h"]))
+            continue
+        if a.tag is None or cam["t"] not in (0, 1, 2, 3, 5, 6, 7):
+            continue
+        hws = a.cam_ok[wi * k:(wi + 1) * k]
+        want = mean_frame_hash(a.camidx, a.tag, hws, cam["w"], cam["h"], cam["t"])
+        if f["px"] != want:
+            add("C10", "window-mean", "stream %d acquisition %d: the averaged frame of window %d (camera frames %s) that reached %s is not the binary32 mean of its %d input frames"
+                % (s, ai, wi, hws, where, k))
+
+
 # ----------------------------------------------------------------------------- scenarios
 def gen_cam_lines(rng, two):
     lines = []
@@ -130,7 +203,7 @@ def scenario(rng, kind):
     two = rng.random() < 0.3
     cams = gen_cam_lines(rng, two)
     streams = [0, 1] if two else [0]
-    fs = {s: frame_size(cams[s]["w"], cams[s]["h"], cams[s]["t"]) for s in streams}
+    fs = {s: frame_size(cams[s]["w"], cams[s]["h"], 4 if kind == "avg" else cams[s]["t"]) for s in streams}   # avg: f32 output frames
     capf = rng.choice([2, 2, 3, 3, 4, 6])
     ring = max(fs.values()) * capf + rng.choice([0, 0, 8, 16, 24, max(fs.values()) // 2 // 8 * 8]) + 8
     prog = ["ring %d" % ring, "filtring %d" % ring, "seed %d" % rng.randint(1, 1 << 30)]
@@ -157,6 +230,8 @@ def scenario(rng, kind):
             avg = 0
             if kind == "abort" and rng.random() < 0.25:
                 avg = rng.choice([2, 3])
+            if kind == "avg" and rng.random() < 0.85:
+                avg = rng.choice([2, 2, 3, 4])
             delay = rng.choice([0, 0, 0, 0.5, 2, 5])
             unbounded = kind == "abort" and rng.random() < 0.3
             if unbounded:
@@ -184,7 +259,7 @@ def scenario(rng, kind):
                 pass
         prog.append("start")
         # client activity while running
-        mon = kind == "monitor" or (kind in ("abort", "api") and rng.random() < 0.4)
+        mon = kind == "monitor" or (kind in ("abort", "api", "avg") and rng.random() < 0.4)
         if mon and (a > 0 or rng.random() < 0.8 or mon_started):
             mon_started = True
             s = rng.choice(streams)
@@ -653,6 +728,11 @@ def oracle(prog, lines, meta):
             want_sz = frame_size(cam["w"], cam["h"], cam["t"])
             avg = a.cfg["avg"] > 1
             ids = [f["id"] for f in a.sto]
+            if avg and a.start_ok and a.returned and not a.aborted and not a.cam_fail and not a.sto_fail and a.cfg["n"] < (1 << 39) \
+                    and not (prev is not None and (prev.aborted or prev.sto_fail or prev.cam_fail)):
+                if len(a.cam_ok) == a.cfg["n"]:
+                    averaging_verdicts(add, s, ai, a, a.sto, "storage")
+                    averaging_verdicts(add, s, ai, a, [f for f in a.mon if not f.get("late")], "the monitor")
             if not avg:
                 # gap-free prefix, in order, of what the camera delivered -- always (C04 safety; C07 prefix at abort)
                 if ids != list(range(len(ids))):
@@ -803,8 +883,13 @@ def to_events(prog, lines):
     owner = {}           # (kind, instance serial) -> stream that opened it
     IDX = {"A": 0, "B": 1, "Bad": 2}
 
+    cur_cam = {}         # stream -> index of the camera it last configured successfully (A / B)
+
     def camidx(s):
-        return IDX.get(cfg.get(s, {}).get("cam"), s)
+        c = cfg.get(s, {}).get("cam")
+        if c in ("A", "B"):
+            cur_cam[s] = IDX[c]
+        return cur_cam.get(s, s)
 
     def stream_for(kind, idx, inst, opening):
         """the stream a device event belongs to: the one that opened this instance; at open, the stream whose new configuration asks for it"""
@@ -1065,7 +1150,7 @@ def event_to_coq(line):
             return "EvG (GStartRet %s)" % B[w[2]]
         if g == "state":
             return "EvG (GState %s)" % {"await": "HAwait", "armed": "HArmed", "running": "HRunning"}[w[2]]
-        return "EvG %s" % {"startcall": "GStartCall", "stopcall": "GStopCall", "stopret": "GStopRet", "abortcall": "GAbortCall",
+        return "EvG %s" % {"startrefused": "GStartRefused", "startcall": "GStartCall", "stopcall": "GStopCall", "stopret": "GStopRet", "abortcall": "GAbortCall",
                            "abortret": "GAbortRet", "shutdowncall": "GShutdownCall", "shutdownret": "GShutdownRet"}[g]
     i = "true" if w[1] == "1" else "false"
     a = {"cli": "ACli", "src": "ASrc", "sink": "ASink", "filt": "AFilt"}[w[2]]
